@@ -142,6 +142,16 @@ def c104(ctx, f, kv, cc):
         if r is not None and f.locals[r].get('n') in ('summary_markdown', 'summary_artifact_id'):
             # the refusal: its true edge leads to a validation return
             tested.setdefault(f.lname(r), r)
+    # the same refusal written as a pattern: `if let (None, None) = (&summary_markdown, &summary_artifact_id)` —
+    # a discriminant test of the local (through the tuple of references), before the child is created
+    for bi in f.reachable():
+        for st in f.blocks[bi]['s']:
+            rv = st.get('rv')
+            if rv and rv['k'] == 'discr' and f.can_reach(bi, cc.bb):
+                for r in reads_locals(f, {'c': rv['pl']}):
+                    nm_ = f.locals[r].get('n')
+                    if nm_ in ('summary_markdown', 'summary_artifact_id') and f.lty(r).startswith('core::option::Option<'):
+                        tested.setdefault(nm_, r)
     for nm in ('summary_markdown', 'summary_artifact_id'):
         if nm not in tested:
             ctx.ob('C10.4', f, 'summary-tested:' + nm, False, 'the refusal no longer tests `%s`' % nm, line=f.line)
